@@ -98,6 +98,10 @@ def evaluate_edits(case):
         if isinstance(check, Raised) or check == original:
             return bad("single edit %r of %r leaves the check %r unchanged (n=%d): %r"
                        % (edit, strand, original, n, check), labels)
+        own = lib_call(dsw.decode, dna_sequence=mutated, bit_length=2 * len(mutated) + 2, accessor=complete,
+                       start_index=0, vt_check=check)
+        if isinstance(own, Raised):
+            return bad("decode rejected the strand %r with its own check %r: %r" % (mutated, check, own), labels)
         for fast in (False, True):
             decoded = lib_call(dsw.decode, dna_sequence=mutated, bit_length=2 * len(mutated) + 2, accessor=complete,
                                start_index=0, vt_check=original, is_faster=fast)
